@@ -34,6 +34,7 @@ CONSTANTS HsRecs,        \* records of the server's handshake flight (measured o
           SendSizes,     \* sizes of send / sendall
           Segs,          \* how many units one socket.recv may return (99 = everything in flight)
           HsSegs,        \* the same during the handshake
+          Misc,          \* which of "unwrap", "settimeout", "gettimeout" the caller uses
           ReadFns,       \* which of recv / read / recv_into / mf_read the caller uses
           IdleEnvAt,     \* after which API calls (1 = __init__) the peer may act while the client is idle;
                          \* it may always act while the client is blocked in socket.recv
@@ -252,7 +253,7 @@ MfBuffered(n) ==                          \* BufferedReader.read(n) served from 
                    broken>>
 
 Unwrap ==                                 \* unwrap() -> sslobj.unwrap; only once everything was read
-    /\ Usable /\ Budget /\ ~txClosed /\ pend[1] = pend[2] /\ incFull = <<>> /\ wire = <<>> /\ wpart = 0
+    /\ Usable /\ Budget /\ "unwrap" \in Misc /\ ~txClosed /\ pend[1] = pend[2] /\ incFull = <<>> /\ wire = <<>> /\ wpart = 0
     /\ Begin("unwrap", 0, "unwrap", 0)
     /\ UNCHANGED <<cfg, last, wire, wpart, incFull, incEof, sockEof, outgoing, hs, pend, taken, mfbuf, mfUsed,
                    rxClosed, txClosed, srvHs, srvWritten, srvWrites, srvClosedTx, cliSent, srvGot, closed, stimeout,
@@ -274,14 +275,14 @@ Close ==
                    rxClosed, txClosed, srvHs, srvWritten, srvWrites, srvClosedTx, cliSent, srvGot, stimeout, tmo,
                    broken>>
 SetTimeout(v) ==
-    /\ Usable /\ Budget /\ stimeout # v
+    /\ Usable /\ Budget /\ "settimeout" \in Misc /\ stimeout # v
     /\ Immediate("settimeout", v, << [Blank EXCEPT !.ev = "ssettimeout", !.v = IF Bug = "timeout_dropped" THEN 0 - 1 ELSE v] >>,
                  "none", 0)
     /\ stimeout' = v
     /\ UNCHANGED <<cfg, pc, cur, last, wire, wpart, incFull, incEof, sockEof, outgoing, hs, pend, taken, mfbuf, mfUsed,
                    rxClosed, txClosed, srvHs, srvWritten, srvWrites, srvClosedTx, cliSent, srvGot, closed, tmo, broken>>
 GetTimeout ==
-    /\ Usable /\ Budget /\ stimeout >= 0
+    /\ Usable /\ Budget /\ "gettimeout" \in Misc /\ stimeout >= 0
     /\ Immediate("gettimeout", 0, << [Blank EXCEPT !.ev = "sgettimeout", !.v = stimeout] >>, "int", stimeout)
     /\ UNCHANGED <<cfg, pc, cur, last, wire, wpart, incFull, incEof, sockEof, outgoing, hs, pend, taken, mfbuf, mfUsed,
                    rxClosed, txClosed, srvHs, srvWritten, srvWrites, srvClosedTx, cliSent, srvGot, closed, stimeout,
@@ -429,7 +430,7 @@ RetEv(res, exc, kind, n, data) ==
     E([Blank EXCEPT !.ev = "ret", !.fn = cur.fn, !.res = res, !.exc = exc, !.kind = kind, !.n = n, !.data = data])
 Return ==
     /\ pc = "return"
-    /\ IF last.res = "eof" /\ ~(cur.f = "read" /\ cfg.suppress) THEN      \* SSLError leaves the loop
+    /\ IF last.res = "eof" /\ ~(cur.f = "read" /\ cfg.suppress) /\ Bug # "ragged_silent" THEN  \* SSLError leaves the loop
           /\ log' = Append(log, RetEv("exc", "SSLEOFError", "none", 0, <<>>))
           /\ pc' = (IF cur.fn = "init" THEN "done" ELSE "idle") /\ cur' = NoCall /\ mfbuf' = mfbuf
        ELSE IF cur.fn \in {"init", "sendall", "unwrap"} THEN
